@@ -461,9 +461,9 @@ func (m *Model) IsNewContract(a common.Address) bool {
 	m.touchAddr(a)
 	return m.acct(a) != nil && m.cur.newContract[a]
 }
-func (m *Model) Refund() uint64                          { return m.cur.refund }
-func (m *Model) Logs() []LogRec                          { return m.logs }
-func (m *Model) AddressInAL(a common.Address) bool       { return m.cur.alAddr[a] }
+func (m *Model) Refund() uint64                    { return m.cur.refund }
+func (m *Model) Logs() []LogRec                    { return m.logs }
+func (m *Model) AddressInAL(a common.Address) bool { return m.cur.alAddr[a] }
 func (m *Model) SlotInAL(a common.Address, k common.Hash) (bool, bool) {
 	return m.cur.alAddr[a], m.cur.alSlot[slotKey{a, k}]
 }
